@@ -19,7 +19,9 @@ import (
 )
 
 type fitem struct {
-	kind string // op | assume
+	name string // call: callee variant name
+	regs []int  // call: caller registers bound to the callee's distinct point parameters
+	kind string // op | assume | call
 	op   string // set setInt zero neg add add2 addInt mulInt mul2 sq norm  |  equals isZero isOne isOdd boolIn
 	d    int
 	a    int
@@ -29,6 +31,13 @@ type fitem struct {
 }
 
 func (it fitem) lean() string {
+	if it.kind == "call" {
+		rs := make([]string, len(it.regs))
+		for i, r := range it.regs {
+			rs[i] = fmt.Sprint(r)
+		}
+		return fmt.Sprintf(".call %d [%s]", it.d, strings.Join(rs, ", "))
+	}
 	if it.kind == "assume" {
 		var c string
 		switch it.op {
@@ -112,7 +121,14 @@ func (sc *fscope) clone() *fscope {
 	return n
 }
 
+type variantReq struct {
+	fn      string
+	pattern []int
+}
+
 type fctx struct {
+	callMode    bool
+	requests    []variantReq
 	p           *Pkg
 	nreg        int
 	regNames    []string
@@ -632,6 +648,44 @@ func (c *fctx) stmt(f fork, s ast.Stmt) []fork {
 				if !ok {
 					return nil
 				}
+				if c.callMode && isPointFunc(c.p, fd) {
+					// not inlined: a call item to the variant of the callee with this aliasing pattern
+					var pattern []int
+					var regs []int
+					var pts [][3]int
+					for _, a := range args {
+						if a.kind != "point" {
+							c.fail(st, "call with non-point argument in call mode")
+							return nil
+						}
+						idx := len(pts)
+						for j, q := range pts {
+							if q == a.pt {
+								idx = j
+								break
+							}
+						}
+						if idx == len(pts) {
+							regs = append(regs, a.pt[0], a.pt[1], a.pt[2])
+						}
+						pts = append(pts, a.pt)
+						pattern = append(pattern, idx)
+					}
+					// normalise the pattern: index of first parameter with the same registers
+					norm := make([]int, len(pattern))
+					for i := range pts {
+						norm[i] = i
+						for j := 0; j < i; j++ {
+							if pts[j] == pts[i] {
+								norm[i] = j
+								break
+							}
+						}
+					}
+					c.requests = append(c.requests, variantReq{id.Name, norm})
+					f2.st.items = append(f2.st.items, fitem{kind: "call", name: variantName(id.Name, norm), regs: regs}) // point routines keep their Go names
+					return []fork{f2}
+				}
 				return c.inlineCall(f2, fd, nil, args, st)
 			}
 		}
@@ -718,6 +772,40 @@ func (c *fctx) stmt(f fork, s ast.Stmt) []fork {
 	return nil
 }
 
+func isPointFunc(p *Pkg, fd *ast.FuncDecl) bool {
+	if fd.Recv != nil {
+		return false
+	}
+	n := 0
+	for _, fld := range fd.Type.Params.List {
+		for _, nm := range fld.Names {
+			if typeName(p.info.Defs[nm].Type()) != "JacobianPoint" {
+				return false
+			}
+			n++
+		}
+	}
+	return n > 0
+}
+
+// variantName: the plain function name when no two parameters alias, else name_a<pattern>
+func variantName(fn string, pattern []int) string {
+	plain := true
+	for i, v := range pattern {
+		if v != i {
+			plain = false
+		}
+	}
+	if plain {
+		return fn
+	}
+	s := fn + "_a"
+	for _, v := range pattern {
+		s += fmt.Sprint(v)
+	}
+	return s
+}
+
 type entrySpec struct {
 	lean  string
 	fn    string   // function key
@@ -743,95 +831,239 @@ var formulaEntries = []entrySpec{
 	{"SquareRootVal", "FieldVal.SquareRootVal", nil},
 }
 
+type genEntryRes struct {
+	lean     string
+	fn       string
+	params   []string
+	nparam   int
+	nreg     int
+	paths    []*fstate
+	regNames []string
+	requests []variantReq
+}
+
+// genEntry symbolically executes one function; `pattern[i]` = index of the first parameter that
+// shares registers with parameter i (i itself when distinct).
+func genEntry(p *Pkg, lean, fn string, pattern []int, callMode bool) (*genEntryRes, error) {
+	fd := p.funcs[fn]
+	if fd == nil {
+		return nil, fmt.Errorf("formula %s: function %s not found", lean, fn)
+	}
+	c := &fctx{p: p, globals: map[string]int{}, globalNames: map[string]bool{}, entry: lean, callMode: callMode}
+	sc := &fscope{vars: map[types.Object]binding{}}
+	var params []string
+	var bound []binding
+	var perr error
+	bind := func(nm *ast.Ident, obj types.Object) {
+		i := len(bound)
+		if pattern != nil && i < len(pattern) && pattern[i] != i {
+			sc.vars[obj] = bound[pattern[i]]
+			bound = append(bound, bound[pattern[i]])
+			params = append(params, fmt.Sprintf("%s≡param%d", nm.Name, pattern[i]))
+			return
+		}
+		var b binding
+		switch {
+		case typeName(obj.Type()) == "FieldVal":
+			b = binding{kind: "reg", reg: c.fresh(nm.Name)}
+		case typeName(obj.Type()) == "JacobianPoint":
+			b = binding{kind: "point"}
+			for i, f := range []string{"X", "Y", "Z"} {
+				b.pt[i] = c.fresh(nm.Name + "." + f)
+			}
+		case widthOf(obj.Type()) == 1:
+			b = binding{kind: "boolIn", idx: 0}
+		default:
+			perr = fmt.Errorf("formula %s: parameter %s of type %s", lean, nm.Name, obj.Type())
+			return
+		}
+		sc.vars[obj] = b
+		bound = append(bound, b)
+		params = append(params, nm.Name)
+	}
+	if fd.Recv != nil && len(fd.Recv.List[0].Names) > 0 {
+		nm := fd.Recv.List[0].Names[0]
+		bind(nm, p.info.Defs[nm])
+	}
+	for _, fld := range fd.Type.Params.List {
+		for _, nm := range fld.Names {
+			bind(nm, p.info.Defs[nm])
+		}
+	}
+	if perr != nil {
+		return nil, perr
+	}
+	nparam := c.nreg
+	res := c.block(fork{&fstate{ret: -1, nreg: nparam, globals: map[string]int{}}, sc}, fd.Body.List)
+	if c.err != nil {
+		return nil, c.err
+	}
+	maxreg := nparam
+	out := &genEntryRes{lean: lean, fn: fn, params: params, nparam: nparam, regNames: c.regNames, requests: c.requests}
+	for _, r := range res {
+		if r.st.nreg > maxreg {
+			maxreg = r.st.nreg
+		}
+		out.paths = append(out.paths, r.st)
+	}
+	out.nreg = maxreg
+	return out, nil
+}
+
+func renderEntries(ns, header string, entries []*genEntryRes) string {
+	index := map[string]int{}
+	for i, e := range entries {
+		index[e.lean] = i
+	}
+	var sb strings.Builder
+	fmt.Fprintf(&sb, "import Secp.Core.FOp\n/- GENERATED by tools/gotr (pass T2) from /repo — do not edit.\n   %s -/\nset_option maxRecDepth 100000\nnamespace %s\nopen Secp.FOp\n\n", header, ns)
+	var names []string
+	for _, e := range entries {
+		var pnames []string
+		for pi, st := range e.paths {
+			ret := "none"
+			if st.ret == 0 {
+				ret = "some false"
+			} else if st.ret == 1 {
+				ret = "some true"
+			}
+			its := make([]string, len(st.items))
+			for i, it := range st.items {
+				if it.kind == "call" {
+					it.d = index[it.name]
+				}
+				its[i] = it.lean()
+			}
+			pn := fmt.Sprintf("%s_p%d", e.lean, pi)
+			fmt.Fprintf(&sb, "def %s : FPath := { ret := %s, items := [%s] }\n", pn, ret, strings.Join(its, ", "))
+			pnames = append(pnames, pn)
+		}
+		fmt.Fprintf(&sb, "/-- %s (%s); registers: %s -/\n", e.fn, strings.Join(e.params, ", "), regTable(e.regNames))
+		fmt.Fprintf(&sb, "def %s : Entry := {\n  name := %q\n  nparam := %d\n  nreg := %d\n  paths := [%s]\n}\n\n", e.lean, e.lean, e.nparam, e.nreg, strings.Join(pnames, ", "))
+		names = append(names, e.lean)
+	}
+	fmt.Fprintf(&sb, "/-- the entry table; `.call i args` refers to position i -/\ndef allEntries : List Entry := [%s]\n\nend %s\n", strings.Join(names, ", "), ns)
+	return sb.String()
+}
+
+func aliasPattern(fd *ast.FuncDecl, alias []string) []int {
+	var names []string
+	if fd.Recv != nil && len(fd.Recv.List[0].Names) > 0 {
+		names = append(names, fd.Recv.List[0].Names[0].Name)
+	}
+	for _, fld := range fd.Type.Params.List {
+		for _, nm := range fld.Names {
+			names = append(names, nm.Name)
+		}
+	}
+	pat := make([]int, len(names))
+	for i := range pat {
+		pat[i] = i
+	}
+	for _, al := range alias {
+		kv := strings.SplitN(al, "=", 2)
+		for i, n := range names {
+			if n == kv[0] {
+				for j, m := range names {
+					if m == kv[1] {
+						pat[i] = j
+					}
+				}
+			}
+		}
+	}
+	return pat
+}
+
+// passFormulas: every call inlined (used by the abstract interpreter of C16).
 func passFormulas(p *Pkg) (string, []string) {
 	var errs []string
-	var sb strings.Builder
-	sb.WriteString("import Secp.Core.FOp\n/- GENERATED by tools/gotr (pass T2) from /repo — do not edit.\n   Each entry: parameter registers, and the complete list of execution paths. -/\nset_option maxRecDepth 100000\nnamespace Secp.Gen.Formulas\nopen Secp.FOp\n\n")
-	var names []string
+	var entries []*genEntryRes
 	for _, es := range formulaEntries {
 		fd := p.funcs[es.fn]
 		if fd == nil {
 			errs = append(errs, "formula "+es.lean+": function "+es.fn+" not found")
 			continue
 		}
-		c := &fctx{p: p, globals: map[string]int{}, globalNames: map[string]bool{}, entry: es.lean}
-		sc := &fscope{vars: map[types.Object]binding{}}
-		var params []string
-		byName := map[string]binding{}
-		bind := func(nm *ast.Ident, obj types.Object) {
-			for _, al := range es.alias {
-				kv := strings.SplitN(al, "=", 2)
-				if kv[0] == nm.Name {
-					sc.vars[obj] = byName[kv[1]]
-					byName[nm.Name] = byName[kv[1]]
-					params = append(params, nm.Name+"≡"+kv[1])
-					return
-				}
-			}
-			var b binding
-			switch {
-			case typeName(obj.Type()) == "FieldVal":
-				b = binding{kind: "reg", reg: c.fresh(nm.Name)}
-			case typeName(obj.Type()) == "JacobianPoint":
-				b = binding{kind: "point"}
-				for i, fn := range []string{"X", "Y", "Z"} {
-					b.pt[i] = c.fresh(nm.Name + "." + fn)
-				}
-			case widthOf(obj.Type()) == 1:
-				b = binding{kind: "boolIn", idx: 0}
-			default:
-				errs = append(errs, fmt.Sprintf("formula %s: parameter %s of type %s", es.lean, nm.Name, obj.Type()))
-				return
-			}
-			sc.vars[obj] = b
-			byName[nm.Name] = b
-			params = append(params, nm.Name)
-		}
-		if fd.Recv != nil && len(fd.Recv.List[0].Names) > 0 {
-			nm := fd.Recv.List[0].Names[0]
-			bind(nm, p.info.Defs[nm])
-		}
-		for _, fld := range fd.Type.Params.List {
-			for _, nm := range fld.Names {
-				bind(nm, p.info.Defs[nm])
-			}
-		}
-		nparam := c.nreg
-		res := c.block(fork{&fstate{ret: -1, nreg: nparam, globals: map[string]int{}}, sc}, fd.Body.List)
-		maxreg := nparam
-		for _, r := range res {
-			if r.st.nreg > maxreg {
-				maxreg = r.st.nreg
-			}
-		}
-		c.nreg = maxreg
-		if c.err != nil {
-			errs = append(errs, c.err.Error())
+		e, err := genEntry(p, es.lean, es.fn, aliasPattern(fd, es.alias), false)
+		if err != nil {
+			errs = append(errs, err.Error())
 			continue
 		}
-		var pnames []string
-		for pi, r := range res {
-			ret := "none"
-			if r.st.ret == 0 {
-				ret = "some false"
-			} else if r.st.ret == 1 {
-				ret = "some true"
-			}
-			its := make([]string, len(r.st.items))
-			for i, it := range r.st.items {
-				its[i] = it.lean()
-			}
-			pn := fmt.Sprintf("%s_p%d", es.lean, pi)
-			fmt.Fprintf(&sb, "def %s : FPath := { ret := %s, items := [%s] }\n", pn, ret, strings.Join(its, ", "))
-			pnames = append(pnames, pn)
-		}
-		fmt.Fprintf(&sb, "/-- %s (%s); registers: %s -/\n", es.fn, strings.Join(params, ", "), regTable(c.regNames))
-		fmt.Fprintf(&sb, "def %s : Entry := {\n  name := %q\n  nparam := %d\n  nreg := %d\n  paths := [%s]\n}\n\n", es.lean, es.lean, nparam, c.nreg, strings.Join(pnames, ", "))
-		names = append(names, es.lean)
+		entries = append(entries, e)
 	}
-	sort.Strings(names)
-	fmt.Fprintf(&sb, "def allEntries : List Entry := [%s]\n\nend Secp.Gen.Formulas\n", strings.Join(names, ", "))
-	return sb.String(), errs
+	sort.Slice(entries, func(i, j int) bool { return entries[i].lean < entries[j].lean })
+	return renderEntries("Secp.Gen.Formulas", "Each entry: parameter registers and the complete list of execution paths, all calls inlined.", entries), errs
+}
+
+// passFormulasC: calls between point routines are kept as `.call` items to the variant of the callee
+// with the aliasing pattern of the call site (used by the executable model and the group-law proofs).
+func passFormulasC(p *Pkg) (string, []string) {
+	var errs []string
+	done := map[string]*genEntryRes{}
+	var order []string
+	var work []variantReq
+	pretty := map[string]string{"AddNonConst_a010": "AddNonConst_r1", "AddNonConst_a011": "AddNonConst_r2", "DoubleNonConst_a00": "DoubleNonConst_r1"}
+	base := map[string]string{}
+	for _, es := range formulaEntries {
+		if es.alias == nil {
+			base[es.fn] = es.lean
+		}
+	}
+	nameOf := func(fn string, pat []int) string {
+		if b, ok := base[fn]; ok {
+			return variantName(b, pat)
+		}
+		return variantName(fn, pat)
+	}
+	for _, es := range formulaEntries {
+		fd := p.funcs[es.fn]
+		if fd == nil {
+			errs = append(errs, "formula "+es.lean+": function "+es.fn+" not found")
+			continue
+		}
+		work = append(work, variantReq{es.fn, aliasPattern(fd, es.alias)})
+	}
+	for len(work) > 0 {
+		rq := work[0]
+		work = work[1:]
+		name := nameOf(rq.fn, rq.pattern)
+		if _, ok := done[name]; ok {
+			continue
+		}
+		e, err := genEntry(p, name, rq.fn, rq.pattern, true)
+		if err != nil {
+			errs = append(errs, err.Error())
+			done[name] = nil
+			continue
+		}
+		done[name] = e
+		order = append(order, name)
+		work = append(work, e.requests...)
+	}
+	sort.Strings(order)
+	var entries []*genEntryRes
+	for _, n := range order {
+		if done[n] != nil {
+			entries = append(entries, done[n])
+		}
+	}
+	out := renderEntries("Secp.Gen.FormulasC", "Call-structured variant: calls between point routines are `.call` items; aliasing between parameters is a separate entry (suffix _a<pattern>).", entries)
+	// stable pretty aliases for the three public aliasing patterns
+	var al strings.Builder
+	al.WriteString("\nnamespace Secp.Gen.FormulasC\n")
+	var pk []string
+	for k := range pretty {
+		pk = append(pk, k)
+	}
+	sort.Strings(pk)
+	for _, k := range pk {
+		if done[k] != nil {
+			fmt.Fprintf(&al, "abbrev %s := %s\n", pretty[k], k)
+		}
+	}
+	al.WriteString("end Secp.Gen.FormulasC\n")
+	return out + al.String(), errs
 }
 
 func regTable(names []string) string {
